@@ -58,7 +58,8 @@ sreadtriple(int *m, int *n, int_t *nonz,
     asub = *rowind;
     xa   = *colptr;
 
-    val = (float *) SUPERLU_MALLOC(*nonz * sizeof(float));
+    if ( !(val = (float *) SUPERLU_MALLOC(*nonz * sizeof(float))) )
+        ABORT("Malloc fails for val[]");
     row = int32Malloc(*nonz);
     col = int32Malloc(*nonz);
 
